@@ -15,6 +15,7 @@ import (
 type effPayload struct {
 	attrs map[string]*jnode
 	rels  map[string]*jnode // relationship objects (nil when null)
+	id    *string           // the payload's id member, when it is a string
 }
 
 func effective(tree *jnode) effPayload {
@@ -25,6 +26,11 @@ func effective(tree *jnode) effPayload {
 	for i, k := range tree.keys {
 		v := tree.vals[i]
 		switch {
+		case strings.EqualFold(k, "id"):
+			if v.kind == "str" {
+				s := v.s
+				e.id = &s
+			}
 		case strings.EqualFold(k, "attributes"):
 			if v.kind == "null" {
 				e.attrs = map[string]*jnode{}
@@ -210,6 +216,9 @@ func c13Payload(c *ctx, sc schemaSpec, payload string, how string, prop string) 
 	// ---------- C06 (resource level): faithful decoding ----------
 	if prop == "C06" && fullOK {
 		ft := full.GetType()
+		if eff.id != nil && full.Get("id") != *eff.id {
+			key, detail = "id-differs", fmt.Sprintf("resource has %q, payload says %q", full.Get("id"), *eff.id)
+		}
 		for k, a := range ft.Attrs {
 			raw, present := eff.attrs[k]
 			if !present {
@@ -307,7 +316,13 @@ func c13Payload(c *ctx, sc schemaSpec, payload string, how string, prop string) 
 	if tree != nil {
 		treeG = tree.gallina()
 	} else {
-		return // not JSON: both entry points fail before the modelled logic; covered by C05's raw stream
+		// not JSON: both entry points must fail, before any modelled logic
+		if key == "" && (fullOK || partOK) {
+			key, detail = "invalid-json-accepted", fmt.Sprintf("full ok=%v, partial ok=%v", fullOK, partOK)
+		}
+		k := c.add("bytes", payload, "not-json "+outcome, false, oL(nil), oL(nil), key, detail)
+		k.Replay = how + ": " + payload
+		return
 	}
 	k := c.add("payload", payload, feature, nattr+nrel == 0,
 		fmt.Sprintf("(run_unmarshal %s %s %s %s %s %s)", env.gallina(), sc.gallina(), treeG, gStrs(fields), gStr(prepath), gRelData(relData)),
@@ -327,6 +342,9 @@ func keysOf(m map[string]bool) []string {
 // c06Remarshal compares the payload with the re-marshaled result by denotation.
 func c06Remarshal(tree *jnode, eff effPayload, out *jnode, ft jsonapi.Type) (string, string) {
 	oe := effective(out)
+	if eff.id != nil && (oe.id == nil || *oe.id != *eff.id) {
+		return "remarshal-changes-id", fmt.Sprintf("%q", *eff.id)
+	}
 	for k, raw := range eff.attrs {
 		got, ok := oe.attrs[k]
 		if !ok {
@@ -476,6 +494,15 @@ func runPayloads(c *ctx, prop string) {
 			}
 		}
 		c13Payload(c, sc, p.text(), how, prop)
+		if c.r.chance(1, 8) {
+			// something after (or before) the JSON value
+			t := pick(c.r, []string{" {}", "]", ",1", " x", "}", "\n\n", " \t", "\x00", " null", p.text()})
+			if c.r.chance(1, 6) {
+				c13Payload(c, sc, strings.TrimSpace(t)+p.text(), how+"+leading", prop)
+			} else {
+				c13Payload(c, sc, p.text()+t, how+"+trailing", prop)
+			}
+		}
 	}
 }
 
